@@ -204,7 +204,7 @@ def gen_refine_case(rng, i):
                 max_iter=rng.choice([1, 2, 3, 10, 10]), max_shift=rng.choice([8, 8, 4, 16]),
                 max_rms_dev=rng.choice(["1"] * 8 + ["1e-9", "0.001"]), schedule=sched,
                 index=rng.choice(["range"] * 6 + ["shuffled"] * 3 + ["dup"]),
-                order=rng.randint(0, 10 ** 6))
+                order=rng.randint(0, 10 ** 6), prior_cost=(i % 3 == 1))
 
 
 def gen_accuracy_case(rng):
@@ -460,6 +460,9 @@ def build_table(inp, ff):
         data[sc] = [f["size"] / 8.0 for f in feats]
     data["tag"] = list(range(len(feats)))
     data["mass"] = [1000 + 3 * i for i in range(len(feats))]
+    if inp.get("prior_cost"):
+        # the table is the output of an earlier refine_leastsq pass: it already has a (finite) cost
+        data["cost"] = [0.25 + 0.125 * i for i in range(len(feats))]
     t = pd.DataFrame(data)
     import random
     order = list(range(len(feats)))
@@ -701,8 +704,8 @@ def run_refine(ctx, inp, res):
                     continue         # injected NaN objective with success=True: accepted by design
                 for tg in ctags:
                     for col in list(i0.columns):
-                        if col in ("cluster", "cluster_size"):
-                            continue
+                        if col in ("cluster", "cluster_size", "cost"):
+                            continue         # `cost` is the column that MARKS the failure (NaN)
                         a, b_ = o.loc[tg, col], i0.loc[tg, col]
                         same = (a == b_) or (isinstance(a, float) and isinstance(b_, float)
                                               and math.isnan(a) and math.isnan(b_))
